@@ -568,7 +568,7 @@ func (e *Engine) invoke(st *State, fr *Frame, x *ssa.Call, recv Val, m *types.Fu
 		names = append(names, sig.Params().At(i).Name())
 	}
 	res := e.applyContractSig(st, fr, x, key, spec, sig, names, all)
-	st.calls = append(st.calls, callRec{target: m.Name(), args: args, res: res, seq: len(st.calls)})
+	st.calls = append(st.calls, callRec{target: m.Name(), args: all, res: res, seq: len(st.calls)})
 	return tupleOf(res)
 }
 
@@ -600,7 +600,15 @@ func (e *Engine) callOpaque(st *State, fr *Frame, x *ssa.Call, fv ssa.Value, f V
 					res = append(res, e.freshVal(st, f.Sig.Results().At(i).Type(), "opaque"))
 				}
 			}
-			st.calls = append(st.calls, callRec{target: "<opaque>", args: args, res: res, seq: len(st.calls)})
+			tname := "<opaque>"
+			if u, ok := fv.(*ssa.UnOp); ok { // callback loaded from a field: logged under the field's name
+				if fa, ok := u.X.(*ssa.FieldAddr); ok {
+					if stt, ok := under(deref(fa.X.Type())).(*types.Struct); ok {
+						tname = stt.Field(fa.Field).Name()
+					}
+				}
+			}
+			st.calls = append(st.calls, callRec{target: tname, args: args, res: res, seq: len(st.calls)})
 			return tupleOf(res)
 		}
 		panic(unsupported("call of an opaque function value that is not a parameter of the function under contract"))
@@ -705,6 +713,9 @@ func (e *Engine) applyContractSig(st *State, fr *Frame, x *ssa.Call, name string
 		if atomicRecv == nil {
 			panic(unsupported("call to " + name + " (atomic contract) on a receiver that is not a plain heap object"))
 		}
+	}
+	if spec.ModAny {
+		panic(unsupported("call to " + name + " whose contract says 'modifies anything'"))
 	}
 	oldHeaps := copyHeaps(st.heaps)
 	oldAlloc := st.alloc
